@@ -26,6 +26,8 @@ type Ann struct {
 type Param struct {
 	Type string `json:"type"`
 	Name string `json:"name"`
+	// Array: the parameter is declared with the brackets after its name (String argv[]): the name is still argv
+	Array bool `json:"array"`
 }
 
 type Import struct {
@@ -624,8 +626,13 @@ func Render(f File, layout int) (string, Facts) {
 					}
 				}
 				rd.ref(p.Type)
-				w.s(p.Type + " " + p.Name)
-				rd.sc.params[p.Name] = p.Type
+				if p.Array {
+					w.s(p.Type + " " + p.Name + "[]")
+					rd.sc.params[p.Name] = p.Type + "[]"
+				} else {
+					w.s(p.Type + " " + p.Name)
+					rd.sc.params[p.Name] = p.Type
+				}
 			}
 			w.s(")")
 			if len(m.Throws) > 0 {
